@@ -3,6 +3,7 @@ CONSTANTS
   MaxLen = 5
   Alphabet = {0, 1}
   M_MaintenanceKeepsTail = TRUE
+  M_MaintenanceSkipsBusyJob = TRUE
   Ms = {0, 1, 2, 3}
 INVARIANTS TypeOK LinesExactlyOnce CallsAreLines TailIsRemainder AccumBounded Export
 CHECK_DEADLOCK FALSE
